@@ -597,10 +597,11 @@ class Resolver:
                     if isinstance(a, ast.Assign) and len(a.targets) == 1 and
                     isinstance(a.targets[0], ast.Name) and
                     a.targets[0].id == fn.id]
-            if len(stores) == 1 and len(defs) == 1 and \
-                    isinstance(defs[0].value, ast.Attribute) and \
-                    isinstance(defs[0].value.value, ast.Name) and \
-                    defs[0].value.value.id == ctx.func.self_name:
+            # (or once per branch: `f = self.a` ... else: `f = self.b`)
+            if stores and len(stores) == len(defs) and all(
+                    isinstance(d.value, ast.Attribute) and
+                    isinstance(d.value.value, ast.Name) and
+                    d.value.value.id == ctx.func.self_name for d in defs):
                 recv_is_self = True
         for t in types:
             k = t[0]
